@@ -26,6 +26,8 @@ def obligations(tier, seed):
         quick_lengths = (3,) if name_k.startswith('folded_') else (1,) if name_k in ('one_true_float', 'none_true_bytes') else ((1, 3) if name_k in ('import_and_literal', 'decorator_only') else ((1, 3)[(k + seed) % 2],))
         for L in (quick_lengths if tier == 'quick' else (1, 3)):
             cs = [combos[(k // 2 + seed + L) % 4]] if tier == 'quick' else combos[:2]
+            if tier == 'quick' and L == 1 and name_k in ('import_and_literal', 'decorator_only'):
+                cs = [(True, True)]     # one-character names with every binding renameable: where generated names meet the program's own
             for (rl, rg) in cs:
                 pre = ['k == %d' % k, 'len(A) == %d and len(B) == %d and len(C) == %d' % (L, L, L),
                        '"." not in A and "." not in B and "." not in C', 'rl == %s' % rl, 'rg == %s' % rg]
